@@ -428,6 +428,10 @@ func buildFlat(g *ref.G) geom.T {
 			}
 		}
 		if allPresent {
+			if len(g.C1)%2 == 1 {
+				// the ends option handed over with no ends in it: still one end per coordinate
+				return geom.NewMultiPointFlat(g.Layout, flat, geom.NewMultiPointFlatOptionWithEnds(nil))
+			}
 			return geom.NewMultiPointFlat(g.Layout, flat) // default ends: one per coordinate
 		}
 		return geom.NewMultiPointFlat(g.Layout, flat, geom.NewMultiPointFlatOptionWithEnds(ends))
